@@ -454,7 +454,14 @@ nFD == <<102, 100>>
 nFA == <<102, 97>>
 nFS == <<102, 115>>
 Vars0(af) == << <<nFE, VFeat(EN, nFE)>>, <<nFD, VFeat(DIS, nFD)>>, <<nFA, VFeat(Effective(AUTO, af), nFA)>>, <<nFS, VMod(nFS)>> >>
-Run(prog, af) == ExecSeq(prog, 1, R(Vars0(af), <<>>, "next", 0, <<>>))
+\* the run, and the index of the top-level statement at which it stopped (0: ran to the end)
+RECURSIVE RunFrom(_, _, _)
+RunFrom(prog, i, r) ==
+    IF i > Len(prog) THEN [r |-> r, stop |-> 0]
+    ELSE LET r1 == ExecSeq(<<prog[i]>>, 1, r) IN
+         IF r1.sig # "next" THEN [r |-> r1, stop |-> i] ELSE RunFrom(prog, i + 1, r1)
+RunTop(prog, af) == RunFrom(prog, 1, R(Vars0(af), <<>>, "next", 0, <<>>))
+Run(prog, af) == RunTop(prog, af).r
 
 \* what each variable holds, by kind (for reports only)
 KindOf(v) == IF v.k = "cfg" /\ v.n = 1 THEN "cfg-used" ELSE v.k
